@@ -7,7 +7,8 @@ The bodies are `ArrF.compactF`, `ArrF.sortF`, … of `Liquid/Filters/Arr.lean` (
 by the `arrf`, `filter` and `render` streams). Every statement is for an arbitrary list (no
 bound on length or contents).
 
-Vocabulary: `ArrF.lessB` is `values.Less`; `ArrF.homog xs` says `xs` is homogeneous (all integers /
+Vocabulary: `insertionSort` is Go's (`sort/zsortinterface.go`) — all of `sort.Sort` up to 12 elements;
+`ArrF.lessB` is `values.Less`; `ArrF.homog xs` says `xs` is homogeneous (all integers /
 all numbers with the integers inside ±2⁵³ / all strings / all booleans / all nil / all unordered
 values) — the arrays on which `Less` is a strict weak order; `ArrF.IntWF x` says an unsigned
 integer is not negative (true of every Go value, the protocol cannot spell anything else).
@@ -15,10 +16,73 @@ integer is not negative (true of every Go value, the protocol cannot spell anyth
 
 open ArrF
 
-/-! ## sort -/
+/-! ## Go's insertion sort — all of `sort.Sort` on at most 12 elements (`Liquid/InsertionSort.lean`)
 
-/-- `sort` returns a permutation of its input — on every array, homogeneous or not. -/
-theorem sort_perm (xs : List GoVal) : (sortF xs).Perm xs := List.mergeSort_perm xs sortLe
+`lt` is the comparator (`data.Less`); nothing is assumed about it unless stated. -/
+
+/-- The insertion sort returns a permutation of its input — for every comparator. -/
+theorem insertionSort_perm {α : Type} (lt : α → α → Bool) (xs : List α) : (insertionSort lt xs).Perm xs :=
+  insertionSort_perm' lt xs
+
+/-- It sorts (no element is less than an earlier one) whenever the comparator is a strict weak order on
+the elements of the list: asymmetric, and `¬ a<b`, `¬ b<c` imply `¬ a<c`. -/
+theorem insertionSort_sorted {α : Type} (lt : α → α → Bool) (l : List α)
+    (asym : ∀ a ∈ l, ∀ b ∈ l, lt a b = true → lt b a = false)
+    (ntrans : ∀ a ∈ l, ∀ b ∈ l, ∀ c ∈ l, lt a b = false → lt b c = false → lt a c = false) :
+    (insertionSort lt l).Pairwise (fun a b => lt b a = false) :=
+  insertionSort_sorted_of_mem lt l asym ntrans
+
+/-- It is stable — for every comparator: a subsequence of the input in which no element is less than
+an earlier one is a subsequence of the result (for a pair `[a, b]`: if `a` precedes `b` and `¬ b<a`,
+then `a` still precedes `b`; in particular tied elements keep their order). -/
+theorem insertionSort_stable {α : Type} (lt : α → α → Bool) (l ys : List α)
+    (hp : ys.Pairwise (fun a b => lt b a = false)) (hs : ys.Sublist l) :
+    ys.Sublist (insertionSort lt l) :=
+  insertionSort_stable' lt hp hs
+
+/-- When "not greater" (`¬ b<a`) is transitive and total on the elements of the list, the insertion
+sort returns the same list as `List.mergeSort` — so everything known about `mergeSort` transfers. -/
+theorem insertionSort_eq_mergeSort {α : Type} (lt : α → α → Bool) (l : List α)
+    (trans : ∀ a ∈ l, ∀ b ∈ l, ∀ c ∈ l, lt b a = false → lt c b = false → lt c a = false)
+    (total : ∀ a ∈ l, ∀ b ∈ l, lt b a = false ∨ lt a b = false) :
+    insertionSort lt l = l.mergeSort (fun a b => !lt b a) :=
+  insertionSort_eq_mergeSort_of_mem lt l trans total
+
+/-- The version the filters run, over a comparator that may panic or be outside the model
+(`insertionSortM`): whenever it answers, the answer is a permutation of the input; and where the
+comparator answers on the elements of the list, it is the insertion sort by those answers. -/
+theorem insertionSort_partial {α ε : Type} (ltM : α → α → Res ε Bool) (xs : List α) :
+    (∀ ys, insertionSortM ltM xs = .ok ys → ys.Perm xs) ∧
+    (∀ lt : α → α → Bool, (∀ a ∈ xs, ∀ b ∈ xs, ltM a b = .ok (lt a b)) →
+      insertionSortM ltM xs = .ok (insertionSort lt xs)) :=
+  ⟨fun _ h => insertionSortM_perm h, fun _ h => insertionSortM_eq h⟩
+
+/-- `<` on `[3, 1, 2]`: a strict order; the hypotheses of the four theorems hold and the result is `[1, 2, 3]` -/
+example : insertionSort (fun a b : Nat => decide (a < b)) [3, 1, 2] = [1, 2, 3] ∧
+    (∀ a ∈ [3, 1, 2], ∀ b ∈ [3, 1, 2], decide (a < b) = true → decide (b < a) = false) ∧
+    (∀ a ∈ [3, 1, 2], ∀ b ∈ [3, 1, 2], ∀ c ∈ [3, 1, 2],
+      decide (b < a) = false → decide (c < b) = false → decide (c < a) = false) ∧
+    (∀ a ∈ [3, 1, 2], ∀ b ∈ [3, 1, 2], decide (b < a) = false ∨ decide (a < b) = false) ∧
+    [1, 2].Pairwise (fun a b => decide (b < a) = false) ∧ [1, 2].Sublist [3, 1, 2] := by
+  refine ⟨by decide, by decide, by decide, by decide, by decide, by decide⟩
+/-- a comparator that is not an order (`a "<" b` iff `b = a + 1`; not transitive): `[3, 1, 2]` stays as
+it is although `1 "<" 2 "<" 3` — still a permutation, and the partial version agrees -/
+example : insertionSort (fun a b : Nat => b == a + 1) [3, 1, 2] = [3, 1, 2] ∧
+    insertionSortM (ε := Unit) (fun a b : Nat => .ok (b == a + 1)) [3, 1, 2] = .ok [3, 1, 2] := by
+  exact ⟨by decide, by decide⟩
+/-- a comparison that does not answer ends the sort only if it is made: `[5]` needs none -/
+example : insertionSortM (ε := Unit) (fun _ _ : Nat => .unmodelled "?") [5] = .ok [5] ∧
+    insertionSortM (ε := Unit) (fun _ _ : Nat => .unmodelled "?") [5, 6] = .unmodelled "?" := ⟨rfl, rfl⟩
+
+/-! ## sort
+
+`sortF` is what `values.Sort` computes: `insertionSort` by `values.Less` up to 12 elements, a
+`Less`-sorted permutation beyond (`mergeSort`). `sortM` is the filter's model: the same insertion sort
+over `Cmp.less` as the partial function it is in the model, and `unmodelled` beyond 12 elements unless
+the array is homogeneous. -/
+
+/-- `sort` returns a permutation of its input — on every array, homogeneous or not, of every length. -/
+theorem sort_perm (xs : List GoVal) : (sortF xs).Perm xs := sortF_perm xs
 
 /-- On a homogeneous array the result is in ascending order: no element is `Less` than an earlier one. -/
 theorem sort_sorted (xs : List GoVal) (h : homog xs = true) (hw : ∀ x ∈ xs, IntWF x) :
@@ -30,12 +94,45 @@ example : homog [.int .int 2, .flt .f64 (3/2), .int .i8 (-1), .int .u8 3] = true
     homog [.str [98], .str [66], .str [97]] = true ∧ (∀ x ∈ [GoVal.str [98], .str [66], .str [97]], IntWF x) := by
   refine ⟨by decide +kernel, ?_, by decide +kernel, ?_⟩ <;>
     (intro x hx; simp at hx; rcases hx with rfl | rfl | rfl | rfl <;> simp [IntWF, Cmp.toLiq, Cmp.intOK, IntKind.isSigned])
-/-- a mixed array is *not* homogeneous (the model then answers `unmodelled`; only `sort_perm` is claimed) -/
+/-- a mixed array is *not* homogeneous: only `sort_perm`, `sort_model` and `sort_stable` are claimed -/
 example : homog [.int .int 1, .str [97], .nil] = false := by decide +kernel
 
-/-- Why the `arrf` stream may compare sort results in canonical form (key sequence + multiset): any two
-sorted permutations of a homogeneous array — Go's, whatever its unstable sort does with ties, and the
-model's — have the same sequence of canonical sort keys, and the same elements up to order. -/
+/-- The filter's model and `sortF`: whenever the model answers, it answers `sortF xs`; it answers on
+every array of at most 12 elements (mixed kinds included: there the list is Go's insertion sort,
+comparison by comparison) and on every homogeneous array; `values.Less` itself always answers. -/
+theorem sort_model (xs : List GoVal) :
+    (∀ ys, sortM xs = .ok ys → ys = sortF xs) ∧
+    (xs.length ≤ 12 ∨ homog xs = true → sortM xs = .ok (sortF xs)) ∧
+    (xs.length ≤ 12 → sortF xs = insertionSort lessB xs) ∧
+    (∀ a b, Cmp.less a b = .ok (lessB a b)) := by
+  refine ⟨(sortM_eq xs).1, (sortM_eq xs).2, ?_, less_eq_lessB⟩
+  intro h
+  simp [sortF, maxInsertion, h]
+
+/-- Up to 12 elements `sort` is stable, on every array: a subsequence of the input in which no
+element is `Less` than an earlier one is a subsequence of the result. -/
+theorem sort_stable (xs ys : List GoVal) (hl : xs.length ≤ 12)
+    (hp : ys.Pairwise (fun a b => lessB b a = false)) (hs : ys.Sublist xs) : ys.Sublist (sortF xs) := by
+  rw [(sort_model xs).2.2.1 hl]
+  exact insertionSort_stable lessB xs ys hp hs
+
+/-- `[2, 1, "a", 0]`: `Less` answers false across kinds, so `"a"` stops the `0` — Go's result, and the
+model's, is `[1, 2, "a", 0]` -/
+example : sortM [.int .int 2, .int .int 1, .str [97], .int .int 0]
+      = .ok (sortF [.int .int 2, .int .int 1, .str [97], .int .int 0]) ∧
+    (sortF [.int .int 2, .int .int 1, .str [97], .int .int 0]).map GoVal.enc
+      = ([.int .int 1, .int .int 2, .str [97], .int .int 0] : List GoVal).map GoVal.enc :=
+  ⟨(sort_model _).2.1 (Or.inl (by decide)), by decide +kernel⟩
+
+/-- On a homogeneous array the insertion sort and `mergeSort` agree: `sortF` is `mergeSort` by
+`¬ Less(b, a)` for every length. -/
+theorem sort_eq_mergeSort (xs : List GoVal) (h : homog xs = true) (hw : ∀ x ∈ xs, IntWF x) :
+    sortF xs = xs.mergeSort sortLe := sortF_eq_mergeSort xs h hw
+
+/-- Why the `arrf` stream may compare sort results of more than 12 elements in canonical form (key
+sequence + multiset): any two sorted permutations of a homogeneous array — Go's, whatever its
+unstable sort does with ties, and the model's — have the same sequence of canonical sort keys, and
+the same elements up to order. -/
 theorem sort_canonical (xs ys zs : List GoVal) (h : homog xs = true) (hw : ∀ x ∈ xs, IntWF x)
     (py : ys.Perm xs) (pz : zs.Perm xs)
     (sy : ys.Pairwise (fun a b => lessB b a = false)) (sz : zs.Pairwise (fun a b => lessB b a = false)) :
@@ -63,8 +160,7 @@ theorem sort_canonical (xs ys zs : List GoVal) (h : homog xs = true) (hw : ∀ x
   rw [canon ys py, canon zs pz, hkeys]
 
 /-- `sort: key` returns a permutation of its input. -/
-theorem sort_key_perm (key : Bytes) (xs : List GoVal) : (sortByF key xs).Perm xs :=
-  List.mergeSort_perm xs (sortByLe key)
+theorem sort_key_perm (key : Bytes) (xs : List GoVal) : (sortByF key xs).Perm xs := sortByF_perm key xs
 
 /-- `sort: key` on an array whose non-nil keys are homogeneous: ascending in the key order
 (`lessByKey`: an entry without the key, or holding nil there, is below every entry that has one). -/
@@ -93,28 +189,77 @@ example : homogBy [107] [.map .str .any [(.str [107], .int .int 2)], .map .str .
   rcases hx with rfl | rfl | rfl | rfl | rfl <;>
     simp [IntWF, Cmp.toLiq, Cmp.intOK, IntKind.isSigned, keyIndex, GoVal.toLiquid, GoVal.mapFind, GoVal.ifaceEq]
 
-/-! ## sort_natural (repaired): a permutation in ascending order of the sort texts, on every array -/
-
-theorem sort_natural_perm (ds : List (Bytes × GoVal)) : (sortTexts ds).Perm ds :=
-  List.mergeSort_perm ds textLe
-
-theorem sort_natural_sorted (ds : List (Bytes × GoVal)) :
-    (sortTexts ds).Pairwise (fun p q => p.1 ≤ q.1) := by
-  have h := List.pairwise_mergeSort (le := textLe)
-    (fun a b c hab hbc => by
-      simp only [textLe, Cmp.bytesLt, Bool.not_eq_true', decide_eq_false_iff_not] at *
-      exact bytes_le_trans _ _ _ hab hbc)
-    (fun a b => by
-      simp only [textLe, Cmp.bytesLt, Bool.or_eq_true, Bool.not_eq_true', decide_eq_false_iff_not]
-      exact bytes_le_total _ _) ds
-  refine h.imp ?_
-  intro p q hpq
-  simpa [textLe, Cmp.bytesLt] using hpq
-
-example : sortTexts [([98], .str [98]), ([], .nil), ([65], .str [97])] ≠ [] := by
+/-- The filter's model of `sort: key` and `sortByF` (as `sort_model`): up to 12 elements it answers on
+every array, whatever the keys hold, with Go's insertion sort by `sortableByProperty.Less`. -/
+theorem sort_key_model (key : Bytes) (xs : List GoVal) :
+    (∀ ys, sortByM key xs = .ok ys → ys = sortByF key xs) ∧
+    (xs.length ≤ 12 ∨ homogBy key xs = true → sortByM key xs = .ok (sortByF key xs)) ∧
+    (xs.length ≤ 12 → sortByF key xs = insertionSort (lessByKey key) xs) ∧
+    (∀ a b, lessByKeyM key a b = .ok (lessByKey key a b)) := by
+  refine ⟨(sortByM_eq key xs).1, (sortByM_eq key xs).2, ?_, lessByKeyM_eq key⟩
   intro h
-  have := (sort_natural_perm [([98], .str [98]), ([], .nil), ([65], GoVal.str [97])]).length_eq
-  simp [h] at this
+  simp [sortByF, maxInsertion, h]
+
+/-- Up to 12 elements `sort: key` is stable, on every array (entries with tied keys, and entries
+without the key among themselves, keep their order). -/
+theorem sort_key_stable (key : Bytes) (xs ys : List GoVal) (hl : xs.length ≤ 12)
+    (hp : ys.Pairwise (fun a b => lessByKey key b a = false)) (hs : ys.Sublist xs) :
+    ys.Sublist (sortByF key xs) := by
+  rw [(sort_key_model key xs).2.2.1 hl]
+  exact insertionSort_stable (lessByKey key) xs ys hp hs
+
+/-- On an array whose non-nil keys are homogeneous `sortByF` is `mergeSort` for every length. -/
+theorem sort_key_eq_mergeSort (key : Bytes) (xs : List GoVal) (h : homogBy key xs = true)
+    (hw : ∀ x ∈ xs, IntWF (keyIndex key x)) : sortByF key xs = xs.mergeSort (sortByLe key) :=
+  sortByF_eq_mergeSort key xs h hw
+
+example : ([.int .int 5, .nil] : List GoVal).Pairwise (fun a b => lessByKey [107] b a = false) ∧
+    ([.int .int 5, .nil] : List GoVal).Sublist [.map .str .any [], .int .int 5, .nil] := by
+  refine ⟨by decide +kernel, ?_⟩
+  exact (List.Sublist.refl _).cons _
+
+/-! ## sort_natural (repaired): a permutation in ascending order of the sort texts, on every array
+
+`sortNatF k` is what `sort.Sort(keySortable{…})` computes when the sort text of every element `x` is
+`k x`: the insertion sort up to 12 elements, a sorted permutation beyond. `sortNatM` is the model. -/
+
+/-- `sort_natural` returns a permutation of its input — on every array, of every length. -/
+theorem sort_natural_perm (k : GoVal → Bytes) (xs : List GoVal) : (sortNatF k xs).Perm xs := sortNatF_perm k xs
+
+/-- … in ascending order of the sort texts (a total preorder on every array: no hypothesis). -/
+theorem sort_natural_sorted (k : GoVal → Bytes) (xs : List GoVal) :
+    (sortNatF k xs).Pairwise (fun a b => k a ≤ k b) := sortNatF_sorted k xs
+
+/-- Up to 12 elements `sort_natural` is stable: elements with equal sort texts keep their order. -/
+theorem sort_natural_stable (k : GoVal → Bytes) (xs ys : List GoVal) (hl : xs.length ≤ 12)
+    (hp : ys.Pairwise (fun a b => k a ≤ k b)) (hs : ys.Sublist xs) : ys.Sublist (sortNatF k xs) := by
+  have : sortNatF k xs = insertionSort (fun a b => Cmp.bytesLt (k a) (k b)) xs := by
+    simp [sortNatF, maxInsertion, hl]
+  rw [this]
+  refine insertionSort_stable _ xs ys (hp.imp ?_) hs
+  intro a b hab
+  simpa [Cmp.bytesLt] using hab
+
+/-- The model and `sortNatF`: whenever the model answers, the answer is a permutation of the input
+(whatever the key function does — an array of one element is returned without its sort text being
+computed, as in Go); and when the key function answers `k x` on every element `x`, the model
+answers `sortNatF k xs` — always in canonical mode, and up to 12 elements in every mode. -/
+theorem sort_natural_model (f : GoVal → ArrF.R Bytes) (xs : List GoVal) :
+    (∀ strict ys, sortNatM strict f xs = .ok ys → ys.Perm xs) ∧
+    (∀ k : GoVal → Bytes, (∀ x ∈ xs, f x = .ok (k x)) →
+      (∀ strict ys, sortNatM strict f xs = .ok ys → ys = sortNatF k xs) ∧
+      sortNatM false f xs = .ok (sortNatF k xs) ∧
+      (xs.length ≤ 12 → sortNatM true f xs = .ok (sortNatF k xs))) :=
+  ⟨fun _ _ h => sortNatM_perm h, fun _ hf => sortNatM_eq hf⟩
+
+/-- `["b", nil, "a"]` with the texts `natKey` gives them (`"B"`, `""`, `"A"`): the key function answers -/
+example : ∀ x ∈ [GoVal.str [98], .nil, .str [97]], natKey x = .ok ((fun v => match v with
+    | .str [98] => [66] | .str [97] => [65] | _ => []) x) := by
+  intro x hx; simp at hx
+  rcases hx with rfl | rfl | rfl <;> rfl
+example : (sortNatF (fun v => match v with | .str [98] => [66] | .str [97] => [65] | _ => [])
+    [.str [98], .nil, .str [97]]).map GoVal.enc = ([.nil, .str [97], .str [98]] : List GoVal).map GoVal.enc := by
+  decide +kernel
 
 /-! ## reverse, compact, concat -/
 
@@ -289,15 +434,16 @@ theorem unary_filters (recv : GoVal) (ys : List GoVal) (hn : recv ≠ .nil)
     have hf : uniq [.slice .any ys] = .ok (.slice .any (uniqF ys)) := by simp [uniq, hp]
     exact applyFilter_unary (hu _ (by simp [unaryNames])) impl_uniq hn hc hf
 
-/-- `{{ a | sort }}` through the call layer, for a receiver of up to 12 elements (where Go's sort is an
-insertion sort, so that the verbatim result is determined): the sorted permutation of `sort_perm` /
-`sort_sorted`. `{{ a | concat: b }}` appends. -/
+/-- `{{ a | sort }}` through the call layer, for a receiver of up to 12 elements of any kinds (where
+Go's sort is an insertion sort, so that the verbatim result is determined): the permutation `sortF`
+of `sort_perm` / `sort_model`, sorted when the array is homogeneous (`sort_sorted`).
+`{{ a | concat: b }}` appends. -/
 theorem sort_concat_filters (recv arg : GoVal) (xs ys : List GoVal) (hn : recv ≠ .nil) (hn' : arg ≠ .nil)
     (hc : convert recv .anys = .ok (.slice .any xs)) (hc' : convert arg .anys = .ok (.slice .any ys)) :
-    (homog xs = true → xs.length ≤ 12 →
+    (xs.length ≤ 12 →
       applyFilter (lookupImpl stdFilterImpls) (bn "sort") recv [] = .ok (.slice .any (sortF xs))) ∧
     applyFilter (lookupImpl stdFilterImpls) (bn "concat") recv [arg] = .ok (.slice .any (xs ++ ys)) :=
-  ⟨fun hh hl => applyFilter_sort hn hc hh hl, applyFilter_concat hn hn' hc hc'⟩
+  ⟨fun hl => applyFilter_sort hn hc hl, applyFilter_concat hn hn' hc hc'⟩
 
 example : convert (.range 3 1) .anys = .ok (.slice .any []) ∧ convert (.array .str [.str [98], .str [97]]) .anys
     = .ok (.slice .any [.str [98], .str [97]]) ∧ homog [.str [98], .str [97]] = true := by
